@@ -249,7 +249,11 @@ pub struct Judge {
     pub last_run: HashMap<Node, usize>,
     pub execs: u64, pub repairs_without_exec: u64, pub queries: u64,
     /// cyclic programs: answers whose from-scratch evaluation meets a cycle are not judged here
-    pub cyclic: bool, pub judged: u64, pub skipped_cyclic: u64,
+    pub cyclic: bool, pub judged: u64, pub skipped_cyclic: u64, pub judged_cyclic: u64,
+    /// nothing had been computed when the current operation started (a fresh engine)
+    pub fresh_before_this_op: bool,
+    /// instances of the recorded finding c06_incremental_scc_membership
+    pub cyclic_incremental: Vec<String>,
 }
 impl Judge {
     pub fn observe(&mut self, prog: &Program, op: &Op, res: &OpResult, step: usize) {
@@ -259,6 +263,7 @@ impl Judge {
             Op::Query(_) => { self.queries += 1; }
         }
         let in_session = matches!(op, Op::Session { .. });
+        self.fresh_before_this_op = self.computed.is_empty();
         // executions: gather per node the reads of this op
         let mut cur_reads: HashMap<Node, Vec<(Node, i64)>> = HashMap::new();
         let mut order: Vec<Node> = Vec::new();
@@ -324,8 +329,16 @@ impl Judge {
             }
         }
         if let (Op::Query(n), Outcome::Value(v)) = (op, &res.outcome) {
-            let want = oracle(prog, &self.inputs, &self.ext_seen, *n, 0);
+            let mut want = oracle(prog, &self.inputs, &self.ext_seen, *n, 0);
+            // the evaluation meets a cycle: from-scratch evaluation with cycle defaults (C06)
+            let mut through_cycle = false;
+            if self.cyclic && want.is_none() { want = crate::prog::oracle_cyclic(prog, &self.inputs, &self.ext_seen, *n); self.judged_cyclic += 1; through_cycle = true; }
             if self.cyclic && want.is_none() { self.skipped_cyclic += 1; }
+            else if through_cycle && want != Some(*v) && !self.fresh_before_this_op {
+                // recorded finding c06_incremental_scc_membership: results computed in earlier requests are reused
+                // although cycle membership has changed since (see known_findings.txt); a FRESH evaluation is judged strictly
+                self.cyclic_incremental.push(format!("step {step}: query {} returned {} but from-scratch with cycle defaults gives {:?}", n.short(), v, want));
+            }
             else if want != Some(*v) {
                 self.violations_c01.push(format!("step {step}: query {} returned {} but from-scratch gives {:?}", n.short(), v, want));
             }
